@@ -109,6 +109,12 @@ class Check(PropCheck):
             for lb, ob in classes:
                 ops = ['sel 0'] + oa + ['sel 1'] + ob + ['sel 0', 'rf 1', 'rf_norm 1', 'wrf 1', 'kf 1', 'cmp_topo 1', 'cmp_branch 1 0', 'cmp_branch 1 1', 'rf 0', 'cmp_branch 0 1']
                 cases.append(Case('pair_%s_%s' % (la, lb), ops, {'cls': 'pair'})); k += 1
+        # cache-filling query, in-place rename through get_by_name_mut / get_mut to a name outside the cached index, comparison again
+        for label, ops0 in classes:
+            for how in ('rename_by_name %s %s' % (S('A'), S('ZZ')), 'set_name 1 %s' % S('YY'), 'rename_by_name %s %s' % (S('B'), S('A'))):
+                ops = ['sel 1', gen.parse_op('((A:1,B:2):0.5,(C:1,D:1):0.25);'), 'sel 0'] + ops0 + ['partitions', 'rf 1', how, 'partitions', 'rf 1', 'rf_norm 1',
+                       'cmp_topo 1', 'wrf 1', 'cmp_branch 1 1', 'dm', 'dmr', 'sel 1', 'rf 0', 'cmp_topo 0']
+                cases.append(Case('ren_%s_%d' % (label, len(cases)), ops, {'cls': 'rename'})); k += 1
         for label, op in MATS:
             for oi in range(0, len(MAT_OPS), 12):
                 cases.append(Case('%s_%d' % (label, oi // 12), op.split('\n') + MAT_OPS[oi:oi + 12], {'cls': label})); k += 1
